@@ -13,6 +13,7 @@ import Cider.Model.Object
 import Cider.Model.Profiles
 import Cider.Model.Moves
 import Cider.Model.TextOps
+import Cider.Model.PH
 open Cider
 
 def ratStr (q : Rat) : String := s!"{q.num}/{q.den}"
@@ -71,10 +72,29 @@ partial def arrangements : Nat → Nat → Nat → List Pattern
 def trueArgmax (a b c : Nat) : Rat × Pattern :=
   (arrangements a b c).foldl (fun (acc : Rat × Pattern) p => let d := delta p; if acc.1 < d then (d, p) else acc) (-1, [])
 
+/-- `Float` as the executable "real-like" numbers -/
+instance : RealLike Float where
+  ofRat q := Float.ofInt q.num / Float.ofNat q.den
+  pow10 x := Float.pow 10.0 x
+  ltB a b := a < b
+
+/-- exact print of a double: its IEEE-754 bit pattern -/
+def outFloat (x : Float) : String := s!"flt {x.toBits.toNat}"
+
+def parseRatTok (t : String) : Rat :=
+  match t.splitOn "/" with
+  | [n, d] => (n.toInt! : Rat) / (d.toNat! : Rat)
+  | [n] => (n.toInt! : Rat)
+  | _ => 0
+
+def titrOf (cls : AA → Int) (pka : AA → Option (Int × Nat)) : PH.Titration :=
+  { cls := cls, pKa := fun a => match pka a with | some nd => (nd.1 : Rat) / (nd.2 : Rat) | none => 0 }
+
 def specPalette : Palette := Spec.defaultPalette
 def genPalette : Palette := Gen.defaultPalette
 
 structure Cfg where
+  tt : PH.Titration
   T : Tables
   pal : Palette
   reduceTab : Nat → Option (AA → AA)
@@ -151,7 +171,21 @@ def seqQuery (cfg : Cfg) (name : String) (s : Seq) (args : List String) : String
   | "linHydro", [w] => outExcept (fun v => outMat [posRow s, v]) (linHydro T w.toNat! s)
   | "linComp", [w, g] =>
     outExcept (fun rows => outMat (posRow s :: rows)) (linComposition w.toNat! (parseGroupsTok g) s)
-  -- C09
+  -- C09: phq <getter> <pH as num/den>
+  | "phq", [g, ph] =>
+    let pH : Float := RealLike.ofRat (parseRatTok ph)
+    if PH.pHRejected pH then outExc .pHRange
+    else if g == "ncpr" then outFloat (PH.ncprPH cfg.tt pH s)
+    else if g == "fcr" then outFloat (PH.fcrPH cfg.tt pH s)
+    else if g == "mnc" then outFloat (PH.meanNetChargePH cfg.tt pH s)
+    else if g == "fer" then outFloat (PH.ferPH cfg.tt pH s)
+    else "bad-op phq"
+  | "pi", [] =>
+    match (PH.isoelectricPoint cfg.tt s : Option (Except Err Float)) with
+    | none => "bad-op fuel"
+    | some (.ok x) => outFloat x
+    | some (.error e) => outExc e
+  | "pisound", [] => "bool true"   -- property oracle evaluated on the real code only
   | "titr", [] => outNats (titrCounts s ++ [s.count AA.P, s.length])
   -- C12
   | "reduce", [size, ua] =>
@@ -268,9 +302,9 @@ partial def loop (cfg : Cfg) (st : St) (h : IO.FS.Stream) (out : IO.FS.Stream) :
 def main (args : List String) : IO Unit := do
   let cfg : Cfg :=
     if args.head? == some "spec" then
-      { T := specTables, pal := specPalette, reduceTab := Spec.reduceTab, alphabetTab := Spec.alphabetTab }
+      { tt := titrOf Spec.titrClass Spec.pKaND, T := specTables, pal := specPalette, reduceTab := Spec.reduceTab, alphabetTab := Spec.alphabetTab }
     else
-      { T := genTables, pal := genPalette, reduceTab := Gen.reduceTab, alphabetTab := Gen.alphabetTab }
+      { tt := titrOf Gen.titrClass Gen.pKaND, T := genTables, pal := genPalette, reduceTab := Gen.reduceTab, alphabetTab := Gen.alphabetTab }
   let stdin ← IO.getStdin
   let stdout ← IO.getStdout
   loop cfg { objs := [] } stdin stdout
